@@ -11,6 +11,7 @@ import (
 	"runtime"
 	"strings"
 	"sync"
+	"sync/atomic"
 	"testing"
 	"testing/synctest"
 	"time"
@@ -348,6 +349,7 @@ type params struct {
 	kills    int
 	herd     bool // chain variant: 5 lockers x 2 goroutines, one name, many short holds: every release wakes all waiters and all but one fail
 	seed     int64
+	latency  time.Duration // early-loss: what the server sends within this (virtual) time arrives at the client in one read; 0 = plain pipe
 }
 
 func (p params) cfg() string {
@@ -389,7 +391,7 @@ func history(run *mon.Run, name string, p params) (string, bool) {
 
 	validity, interval := 4*time.Second, time.Second
 	switch p.kind {
-	case "loss", "force":
+	case "loss", "force", "early-loss":
 		validity, interval = time.Hour, 30*time.Minute
 		if p.nocache { // without invalidations a loss is only seen by the next extension: keep that near
 			validity, interval = 20*time.Second, 10*time.Second
@@ -397,6 +399,7 @@ func history(run *mon.Run, name string, p params) (string, bool) {
 	case "expiry":
 		validity, interval = 2*time.Second, 5*time.Second
 	}
+	var mixedReads int64 // early-loss: reads of a client that returned a reply and an invalidation message after it
 	var lockers []rueidislock.Locker
 	for i := 0; i < p.lockers; i++ {
 		i := i
@@ -407,6 +410,9 @@ func history(run *mon.Run, name string, p params) (string, bool) {
 				w.mu.Lock()
 				w.connOf[fakeredis.ConnID(c)] = i
 				w.mu.Unlock()
+				if p.kind == "early-loss" && p.latency > 0 {
+					c = newCoalesce(c, p.latency, &mixedReads)
+				}
 			}
 			return c, err
 		}
@@ -600,6 +606,7 @@ func history(run *mon.Run, name string, p params) (string, bool) {
 	}
 
 	contended := false
+	earlyRounds := 0
 	switch p.kind {
 	case "chain":
 		var wg sync.WaitGroup
@@ -796,6 +803,160 @@ func history(run *mon.Run, name string, p params) (string, bool) {
 			run.Observe("acquired_after_many_failed_attempts", 1)
 			r.cancel()
 		}
+	case "early-loss":
+		// A third party removes (deletes / overwrites / lets expire) a majority of a holder's keys, each of them right after the
+		// server executed the command that acquired it: the invalidation follows the reply of the acquiring command back to back
+		// (with p.latency > 0 both arrive in the same read of the client). Whatever the holder was doing at that moment, it no
+		// longer owns a majority of its keys: its context must be cancelled without waiting for the next periodic extension.
+		rounds := 3 + rng.Intn(4)
+		prompt := time.Second
+		if p.nocache {
+			prompt = interval + time.Second // without invalidations the loss can only be seen by the next extension
+		}
+		tracking := "loop"
+		if p.nocache {
+			tracking = "nocache"
+		} else if p.noloop {
+			tracking = "noloop"
+		}
+		for round := 0; round < rounds; round++ {
+			n := names[round%len(names)]
+			l := rng.Intn(p.lockers)
+			mode := []string{"del", "overwrite", "expire"}[rng.Intn(3)]
+			cnt := w.majority + rng.Intn(w.total-w.majority+1)
+			pending := map[string]bool{} // guarded by w.mu
+			var victims []string
+			for _, i := range rng.Perm(w.total)[:cnt] {
+				pending[w.key(i, n)] = true
+				victims = append(victims, w.key(i, n))
+			}
+			removed := 0 // guarded by w.mu
+			w.mu.Lock()
+			w.markUnclean(n, "a third party deletes / overwrites lock keys")
+			w.logf("round %d: locker %d on %q, third party will %s %v right after their acquisition", round, l, n, mode, victims)
+			w.mu.Unlock()
+			for _, k := range victims {
+				k := k
+				srv.Plan(&fakeredis.Rule{Name: "early-loss " + k,
+					Match: func(c *fakeredis.Conn, argv []string) bool { // under the server lock
+						if len(argv) < 4 || argv[3] != k || !strings.HasPrefix(strings.ToUpper(argv[0]), "EVAL") {
+							return false
+						}
+						w.mu.Lock()
+						defer w.mu.Unlock()
+						return pending[k] && w.connOf[c.ID] == l
+					},
+					Action: fakeredis.Action{Then: func() { // without the server lock, after the reply has been queued
+						w.mu.Lock()
+						ks, ok := w.keys[k]
+						hit := ok && ks.locker == l && pending[k] // the command has acquired the key for the locker
+						if hit {
+							delete(pending, k)
+						}
+						w.mu.Unlock()
+						if !hit {
+							return
+						}
+						switch mode {
+						case "del":
+							node.Exec("DEL", k)
+						case "overwrite":
+							node.Exec("SET", k, "intruder", "PX", "60000")
+						case "expire":
+							node.Exec("PEXPIRE", k, "1")
+						}
+						w.mu.Lock()
+						removed++
+						w.logf("third party: %s %s right after its acquisition", mode, k)
+						w.mu.Unlock()
+					}}})
+			}
+			ep := begin(l)
+			how := "with"
+			var lctx context.Context
+			var cancel context.CancelFunc
+			var err error
+			if rng.Intn(3) == 0 {
+				how = "try"
+				lctx, cancel, err = lockers[l].TryWithContext(context.Background(), n)
+			} else {
+				lctx, cancel, err = lockers[l].WithContext(context.Background(), n)
+			}
+			if err != nil {
+				run.Observe("acquire_errors", 1)
+				w.mu.Lock()
+				w.logf("locker %d %s(%s) error: %v", l, how, n, err)
+				w.mu.Unlock()
+			} else {
+				h := w.acquired(l, n, how, lctx, ep)
+				// ground truth (the server's exec / expire events): how many keys of the name still hold a value written by this locker.
+				// A key whose TTL the third party cut to 1 ms may have been extended again by the holder before it expired (a holder
+				// in the default tracking mode is invalidated by its own SET and re-extends at once): that key is not lost.
+				owned := func() (c int) {
+					w.mu.Lock()
+					defer w.mu.Unlock()
+					for i := 0; i < w.total; i++ {
+						if ks, ok := w.keys[w.key(i, n)]; ok && ks.locker == l {
+							c++
+						}
+					}
+					return
+				}
+				time.Sleep(200 * time.Millisecond) // the keys beyond the majority are acquired (and removed) in the background meanwhile
+				ownedThen := owned()
+				time.Sleep(prompt)
+				ownedNow := owned()
+				w.mu.Lock()
+				got := removed
+				if ownedThen >= w.majority || ownedNow >= w.majority {
+					got = 0 // the holder owned a majority during the last `prompt`: nothing is demanded
+				}
+				tr := append([]string{}, w.trace...)
+				w.mu.Unlock()
+				var lg []string
+				if lctx.Err() == nil {
+					evs := srv.Log() // takes the server lock: never while holding w.mu
+					w.mu.Lock()
+					for _, e := range evs {
+						if e.Kind == "recv" || e.Kind == "fault" || (len(e.Argv) > 0 && (e.Argv[0] == "PING" || e.Argv[0] == "HELLO" || e.Argv[0] == "CLIENT")) {
+							continue
+						}
+						lg = append(lg, fmt.Sprintf("%s %d L%d c%d %s %q %s %s", w.when[e.Seq].Format("04:05.000000"), e.Seq, w.connOf[e.Conn], e.Conn, e.Kind, e.Argv, e.Note, drv.Tail(e.Reply.String(), 80)))
+					}
+					w.mu.Unlock()
+					if len(lg) > 120 {
+						lg = lg[len(lg)-120:]
+					}
+				}
+				if got < w.majority {
+					run.Observe("early_loss_rounds_incomplete", 1)
+				} else {
+					earlyRounds++
+					run.Observe("early_loss_rounds", 1)
+					run.Observe("early_loss_rounds_"+mode, 1)
+					run.Observe("early_loss_rounds_tracking_"+tracking, 1)
+					run.Observe(fmt.Sprintf("early_loss_rounds_majority_%d", w.majority), 1)
+					run.Observe("early_loss_keys_removed", int64(got))
+					if p.latency > 0 {
+						run.Observe("early_loss_rounds_on_coalescing_connections", 1)
+					}
+					if lctx.Err() == nil {
+						run.Violation("loss-not-noticed", fmt.Sprintf("%s|third-party=%s|right-after-the-acquiring-command", p.cfg(), mode)+keyName(n), map[string]any{"case": name, "lock_name": n, "key_prefix": pfx,
+							"removed": victims, "majority": w.majority, "total": w.total, "how": how, "latency": p.latency.String(), "waited_virtual": prompt.String(), "trace": tr, "log": lg})
+					} else {
+						run.Observe("early_loss_noticed_promptly", 1)
+						lossNoticed(n)
+					}
+				}
+				release(h, cancel)
+			}
+			srv.ClearPlan()
+			time.Sleep(10 * time.Millisecond)
+			for i := 0; i < w.total; i++ {
+				node.Exec("DEL", w.key(i, n))
+			}
+			time.Sleep(time.Duration(rng.Intn(50)) * time.Millisecond)
+		}
 	case "loss", "force", "expiry":
 		n := names[0]
 		lctx, cancel, err := lockers[0].WithContext(context.Background(), n)
@@ -935,6 +1096,9 @@ func history(run *mon.Run, name string, p params) (string, bool) {
 	}
 	close(stopSampler)
 	samplerDone.Wait()
+	if m := atomic.LoadInt64(&mixedReads); m > 0 {
+		run.Observe("early_loss_reads_with_reply_and_invalidation_together", m)
+	}
 
 	w.mu.Lock()
 	for k, v := range w.stats {
@@ -953,7 +1117,10 @@ func history(run *mon.Run, name string, p params) (string, bool) {
 	if p.kind == "chain" && !dirty && contended {
 		run.Observe("clean_contended_histories", 1)
 	}
-	return fmt.Sprintf("%s|lockers=%d|names=%d|kills=%d|acq=%d|contended=%v|nameclasses=%s|prefix=%s", p.cfg(), p.lockers, p.names, p.kills, acq, contended, strings.Join(classList, "+"), pfx), contended && acq >= 2
+	if p.kind == "early-loss" {
+		return fmt.Sprintf("%s|lockers=%d|names=%d|latency=%v|acq=%d|early-loss-rounds=%d|nameclasses=%s|prefix=%s", p.cfg(), p.lockers, p.names, p.latency, acq, earlyRounds, strings.Join(classList, "+"), pfx), earlyRounds > 0
+	}
+	return fmt.Sprintf("%s|lockers=%d|names=%d|kills=%d|acq=%d|contended=%v|nameclasses=%s|prefix=%s", p.cfg(), p.lockers, p.names, p.kills, acq, contended, strings.Join(classList, "+"), pfx), (contended && acq >= 2) || earlyRounds > 0
 }
 
 // C34: distributed locks are mutually exclusive and notice loss.
@@ -961,7 +1128,8 @@ func TestC34(t *testing.T) {
 	run := mon.Start(t, "C34", "exploration",
 		"2-5 real rueidislock lockers (own rueidis client each, KeyMajority 1-3, NoLoopTracking / FallbackSETPX / DisableCache polling mode) on fakeredis (shipped Lua scripts run in its interpreter, client tracking emulated), one history per synctest bubble: "+
 			"(chain) 2-10 goroutines x 2-3 rounds of WithContext/TryWithContext on 1-2 names, holds across 0-3 extension intervals, 0-2 connection kills; (loss) a third party deletes/overwrites a majority of the holder's keys with KeyValidity 1h; "+
-			"(force) ForceWithContext take-over; (expiry) ExtendInterval > KeyValidity. Lock names: plain (35%), containing the key layout's separator ':' in 12 shapes (45%: one/several/leading/trailing/empty segment, index-like, whole-key-like, with the prefix inside), "+
+			"(force) ForceWithContext take-over; (expiry) ExtendInterval > KeyValidity; (early-loss, histories of their own) 3-6 rounds in which a third party deletes / overwrites / lets expire (PEXPIRE 1 ms) a majority of the keys of a lock, each right after the server executed the command that acquired it, "+
+			"so that the invalidation follows the reply of the acquiring command back to back (plain pipe, or everything sent within 1 us / 2 ms arriving in one read), 1-3 lockers, KeyMajority 1-3, every tracking mode. Lock names: plain (35%), containing the key layout's separator ':' in 12 shapes (45%: one/several/leading/trailing/empty segment, index-like, whole-key-like, with the prefix inside), "+
 			"other unusual names (20%: space, non-ASCII, braces, glob characters, quotes, CRLF, NUL, backslash, empty, 320 bytes); KeyPrefix lk / app:lk / lk:v2: / {lk}. "+
 			"Oracles: exclusion at every acquisition return and every 130 ms sampled instant inside clean windows; release order checked synchronously in the server's exec hook; "+
 			"loss noticed within 1 s virtual (cached) ; every waiter acquires within 10 virtual minutes of bounded holds; bubble deadlock = hang. A case is one history, non-trivial when a waiter acquired after waiting and >= 2 acquisitions happened")
@@ -1006,9 +1174,23 @@ func TestC34(t *testing.T) {
 		}
 		oneHistory(run, t, i, p)
 	}
+	// early loss: histories of their own, drawn from a stream of their own (the histories above are the same function of the seed as before)
+	eseeds := run.Rand("early-loss")
+	en := run.N(48, 1200)
+	for i := 0; i < en; i++ {
+		rng := rand.New(rand.NewSource(eseeds.Int63()))
+		p := params{kind: "early-loss", seed: rng.Int63(), lockers: 1 + rng.Intn(3), majority: int32(1 + rng.Intn(3)), noloop: rng.Intn(2) == 0, setpx: rng.Intn(3) == 0, nocache: rng.Intn(5) == 0, names: 1 + rng.Intn(2)}
+		p.latency = []time.Duration{0, time.Microsecond, time.Microsecond, 2 * time.Millisecond}[rng.Intn(4)]
+		if only != "" && only != fmt.Sprintf("h%d", n+i) {
+			continue
+		}
+		oneHistory(run, t, n+i, p)
+	}
 	run.Require("acquisitions", "acquired_after_waiting", "exclusion_checks_acquisition-return", "exclusion_checks_sampled-instant", "releases_after_done", "loss_noticed_promptly",
 		"third_party_majority_removed", "forced_takeovers", "premise_failed_windows", "clean_contended_histories", "connection_kills", "expire_events",
 		// lock names that contain the separator of the key layout: wake-ups and loss notifications that only an invalidation message can have caused
 		"lock_names_separator", "lock_names_special", "cross_locker_wakeups_by_invalidation_name_with_separator", "loss_noticed_by_invalidation_name_with_separator",
-		"histories_key_prefix_with_separator")
+		"histories_key_prefix_with_separator",
+		// a majority of a holder's keys removed by a third party right after the commands that acquired them
+		"early_loss_rounds")
 }
